@@ -25,6 +25,43 @@ LayoutClauses(h, root, X, Y, ux, uy, m) ==
                               /\ m.minY = MinOfSet({Y[i] : i \in S}) /\ m.maxY = MaxOfSet({Y[i] : i \in S})
                               /\ m.width = m.maxX - m.minX /\ m.height = m.maxY - m.minY ]
 LayoutFailing(h, root, X, Y, ux, uy, m) == {c \in DOMAIN LayoutClauses(h, root, X, Y, ux, uy, m) : ~LayoutClauses(h, root, X, Y, ux, uy, m)[c]}
+(* ---- a reference tidy layout (functional Reingold-Tilford): a witness that the invariants are satisfiable for every
+        shape, and the specification a repair of TreeLayout.measure would have to meet. Not used as an oracle. ---- *)
+\* contours of the subtree at i, relative to i: sequences (one entry per level below and including i) of the
+\* leftmost / rightmost x offset on that level
+MaxI2(a, b) == IF a > b THEN a ELSE b
+MinI2(a, b) == IF a < b THEN a ELSE b
+RECURSIVE RefOffset(_,_,_), LeftContour(_,_,_), RightContour(_,_,_), SepNeeded(_,_,_,_)
+\* distance from i to each child (children sit at -RefOffset / +RefOffset); unit = scaled x unit
+SepNeeded(rc, lc, k, unit) ==       \* rc: right contour of the left subtree, lc: left contour of the right subtree
+  IF k > Len(rc) \/ k > Len(lc) THEN 0 ELSE MaxI2(rc[k] - lc[k] + unit, SepNeeded(rc, lc, k + 1, unit))
+RefOffset(h, i, unit) ==
+  IF h.l[i] # 0 /\ h.r[i] # 0
+  THEN LET need == SepNeeded(RightContour(h, h.l[i], unit), LeftContour(h, h.r[i], unit), 1, unit) IN
+       (MaxI2(need, unit) + 1) \div 2
+  ELSE unit
+Shift(s, d) == [k \in 1..Len(s) |-> s[k] + d]
+\* level-wise: take a where it exists, else b
+Merge(a, b, pick(_,_)) == [k \in 1..MaxI2(Len(a), Len(b)) |-> IF k > Len(a) THEN b[k] ELSE IF k > Len(b) THEN a[k] ELSE pick(a[k], b[k])]
+LeftContour(h, i, unit) ==
+  LET off == RefOffset(h, i, unit)
+      a == IF h.l[i] # 0 THEN Shift(LeftContour(h, h.l[i], unit), -off) ELSE <<>>
+      b == IF h.r[i] # 0 THEN Shift(LeftContour(h, h.r[i], unit), off) ELSE <<>>
+  IN <<0>> \o Merge(a, b, MinI2)
+RightContour(h, i, unit) ==
+  LET off == RefOffset(h, i, unit)
+      a == IF h.l[i] # 0 THEN Shift(RightContour(h, h.l[i], unit), -off) ELSE <<>>
+      b == IF h.r[i] # 0 THEN Shift(RightContour(h, h.r[i], unit), off) ELSE <<>>
+  IN <<0>> \o Merge(a, b, MaxI2)
+RECURSIVE RefX(_,_,_)
+RefX(h, i, unit) == IF h.p[i] = 0 THEN 0
+                    ELSE LET par == h.p[i] IN RefX(h, par, unit) + (IF h.l[par] = i THEN -1 ELSE 1) * RefOffset(h, par, unit)
+RefLayoutX(h, unit) == [i \in 1..h.n |-> RefX(h, i, unit)]
+RefLayoutY(h, uy) == [i \in 1..h.n |-> Depth(h, i) * uy]
+RefMeasure(h, root, X, Y) == LET S == Reach(h, root) IN
+  [minX |-> MinOfSet({X[i] : i \in S}), maxX |-> MaxOfSet({X[i] : i \in S}), minY |-> MinOfSet({Y[i] : i \in S}), maxY |-> MaxOfSet({Y[i] : i \in S}),
+   width |-> MaxOfSet({X[i] : i \in S}) - MinOfSet({X[i] : i \in S}), height |-> MaxOfSet({Y[i] : i \in S}) - MinOfSet({Y[i] : i \in S})]
+
 \* mirror image of a heap: children swapped
 MirrorHeap(h) == [h EXCEPT !.l = h.r, !.r = h.l]
 =============================================================================
